@@ -11,7 +11,8 @@ Vocabulary
   2 -> fields ``a`` and ``b``).  ``data[c]``: class owns a DataNamespace.  ``sub[c]``: the argument
   namespace class of c additionally has a field-inheriting subclass.
 * model values: a namespace is ``("N", c, vals, is_sub)``; a set of render arguments is
-  ``("A", c, comps)`` with ``comps = ((owner, vals), ...)`` in ascending owner order.
+  ``("A", c, comps)`` with ``comps = ((owner, vals), ...)`` in ascending owner order; ``vals`` is a tuple of
+  type-sensitive field values ``(type name, value)`` - ``untyped()`` gives the equality class under ``==``.
 """
 from __future__ import annotations
 
@@ -19,15 +20,44 @@ import itertools
 
 ABSENT, NONE = -1, -2          # ``init`` operand codes of the constructor op
 
-V1, V2 = 1, 2
-
-
+# Field values are named by tokens in the operations (the values themselves include pairs that are equal
+# but distinguishable - True/1, 10.0/10 - so they cannot serve as dictionary keys of the search):
+#   "d" the declared default (for ``b``: a fresh tuple equal to the declared default tuple)
+#   "f" field ``a`` only: float(default), equal to the default but of another type
+#   "1" the int 1      "T" True (== 1, another type)      "2" the int 2
 def default_a(c):
     return 10 * c
 
 
 def default_b(c):
-    return 10 * c + 5
+    return tuple([c, 5])
+
+
+def real_value(c, field, tok):
+    if tok == "1":
+        return 1
+    if tok == "2":
+        return 2
+    if tok == "T":
+        return True
+    d = default_b(c) if field == "b" else default_a(c)
+    if tok == "d":
+        return d
+    if tok == "f":
+        return float(d)
+    raise ValueError(tok)
+
+
+def typed(v):
+    """Type-sensitive rendering of a field value: ('bool', True) != ('int', 1)."""
+    return (type(v).__name__, v)
+
+
+def untyped(d):
+    """Equality class of a descriptor under ``==`` of the library (field values compared with ==)."""
+    if d[0] == "N":
+        return ("N", d[1], tuple([v for _, v in d[2]]))
+    return ("A", d[1], tuple([(o, tuple([v for _, v in vs])) for o, vs in d[2]]))
 
 
 class Spec:
@@ -119,8 +149,8 @@ class Model:
         self.owners = [c for c in self.classes if spec.nf[c]]
         self.omro = [sorted(x for x in self.anc[c] if spec.nf[x]) for c in self.classes]
         self.dmro = [sorted(x for x in self.anc[c] if (spec.data[x] or x == 0)) for c in self.classes]
-        self.default = {c: ((default_a(c),) if spec.nf[c] == 1 else (default_a(c), default_b(c)))
-                        for c in self.owners}
+        self.default = {c: ((typed(default_a(c)),) if spec.nf[c] == 1
+                            else (typed(default_a(c)), typed(default_b(c)))) for c in self.owners}
         self.fields = {c: ("a", "b")[: spec.nf[c]] for c in self.owners}
 
     # -- helpers
@@ -161,8 +191,8 @@ class Model:
         if any(k not in names for k, _ in fields):
             return ("err", frozenset(["UnknownArgsFieldError"]))
         vals = list(ns[2])
-        for k, v in fields:
-            vals[names.index(k)] = v
+        for k, tok in fields:
+            vals[names.index(k)] = typed(real_value(ns[1], k, tok))
         return ("ok", ("N", ns[1], tuple(vals), ns[3]))
 
     def ns_make(self, c, pos, kw, sub):
@@ -177,9 +207,10 @@ class Model:
         if errs:
             return ("err", frozenset(errs))
         vals = list(self.default[c])
-        vals[: len(pos)] = pos
-        for k, v in kw:
-            vals[names.index(k)] = v
+        for i, tok in enumerate(pos):
+            vals[i] = typed(real_value(c, names[i], tok))
+        for k, tok in kw:
+            vals[names.index(k)] = typed(real_value(c, k, tok))
         return ("ok", ("N", c, tuple(vals), sub))
 
     def getitem(self, args, c):
@@ -268,34 +299,39 @@ class Model:
         raise ValueError(f"unknown op {op!r}")
 
     # -- alphabet
+    def a_tokens(self, full):
+        if full:
+            return ("d", "f", "1", "T", "2") if self.n <= 2 else ("d", "f", "1", "T")
+        return ("d", "f", "T") if self.n >= 4 else ("d", "f", "1", "T")      # quick tier
+
     def field_sets(self, c, full):
         """Keyword sets used for ``update(cls, **fields)`` / ``ns.update(**fields)`` on class c."""
         if not self.nf[c]:
-            return [(), (("a", V1),)]
-        out = [(), (("a", default_a(c)),), (("a", V1),), (("a", V2),), (("zz", V1),)]
+            return [(), (("a", "1"),)]
+        out = [()] + [(("a", t),) for t in self.a_tokens(full)] + [(("zz", "1"),)]
         if self.nf[c] == 2:
-            out += [(("b", V1),), (("a", V1), ("b", V1))]
+            out += [(("b", "1"),), (("a", "1"), ("b", "1")), (("b", "d"),)]
             if full:
-                out += [(("b", default_b(c)),), (("a", V2), ("b", V1)), (("a", V1), ("zz", V1))]
+                out += [(("a", "T"), ("b", "1")), (("a", "1"), ("zz", "1"))]
         return out
 
-    def mk_ops(self):
+    def mk_ops(self, full=False):
         ops = []
         for c in self.owners:
             for sub in ([False, True] if self.spec.sub[c] else [False]):
                 ops.append(("mk", c, (), (), sub))
-                for v in (default_a(c), V1, V2):
-                    ops.append(("mk", c, (v,), (), sub))
-                    ops.append(("mk", c, (), (("a", v),), sub))
-                ops.append(("mk", c, (V1,), (("a", V2),), sub))         # multiple values
-                ops.append(("mk", c, (), (("zz", V1),), sub))           # unknown field
+                for t in self.a_tokens(full):
+                    ops.append(("mk", c, (t,), (), sub))
+                    ops.append(("mk", c, (), (("a", t),), sub))
+                ops.append(("mk", c, ("1",), (("a", "T"),), sub))         # multiple values
+                ops.append(("mk", c, (), (("zz", "1"),), sub))            # unknown field
                 if self.nf[c] == 1:
-                    ops.append(("mk", c, (V1, V2), (), sub))            # too many values
+                    ops.append(("mk", c, ("1", "T"), (), sub))            # too many values
                 else:
-                    ops.append(("mk", c, (V1, V1), (), sub))
-                    ops.append(("mk", c, (V2,), (("b", V1),), sub))
-                    ops.append(("mk", c, (), (("b", V1),), sub))
-                    ops.append(("mk", c, (V1, V1, V1), (), sub))        # too many values
+                    ops.append(("mk", c, ("1", "1"), (), sub))
+                    ops.append(("mk", c, ("T",), (("b", "1"),), sub))
+                    ops.append(("mk", c, (), (("b", "d"),), sub))
+                    ops.append(("mk", c, ("1", "1", "1"), (), sub))       # too many values
         return ops
 
 
